@@ -186,11 +186,15 @@ def attach_path(block, path):
 
 def decode(block, encoding, errors, line_delimiter):
     # blocksize is not None branch
-    text = block.decode(encoding, errors)
     if line_delimiter in [None, "", "\n", "\r", "\r\n"]:
-        lines = io.StringIO(text, newline=line_delimiter)
+        # read the way the blocksize=None branch does: io.StringIO(text, newline=...)
+        # would translate "\n" in ``text`` to the given newline
+        lines = io.TextIOWrapper(
+            io.BytesIO(block), encoding=encoding, errors=errors, newline=line_delimiter
+        )
         return list(lines)
     else:
+        text = block.decode(encoding, errors)
         if not text:
             return []
         parts = text.split(line_delimiter)
